@@ -18,6 +18,7 @@ from mc.common import reset_frame_state
 
 ID = 'C07'
 LEVEL = 'exploration'
+PRELOAD = ['frame.geometry.geometry', 'frame.netlist.netlist', 'frame.die.die', 'frame.allocation.allocation', 'ruamel.yaml', 'mc.common', 'tools.rect.satmanager', 'tools.rect.pseudobool', 'mc.dpll']
 RULE = ("single constraints: every clause (size<=3) and implication over the 6 literals of 3 variables; at-most-one groups of size 0..7 x {pairwise, "
         "chained k=3,4,5} x 4 polarity patterns (+ a repeated literal); PB inequalities with 3 terms (coefficients -3..3, 4 polarity patterns, optional "
         "4th term repeating a variable), every bound from min-1 to max+1, operators >=,<=,>,<,=, both ROBDD constructions, an expression on the right-hand side; "
